@@ -17,7 +17,9 @@ Emitted terms
                                                            Exception, return) precedes both turn helpers
   gen_http_cancel_guard                                    HttpStreamSession refuses use after cancel: true = the repaired shape
                                                            (flag set and pending dropped by cancel(); checked first in exchange()
-                                                           and __iter__ and after every yield), false = no such flag in the class
+                                                           and __iter__ and after every yield), false = no such flag in the class;
+                                                           in both shapes cancel() must retire the session (_finished, token)
+                                                           BEFORE the POST whose failure it swallows
 """
 from __future__ import annotations
 
@@ -245,6 +247,13 @@ def http_session_guard(repo: Path) -> bool:
         raise _broken("HttpStreamSession.cancel", "unexpected shape (finished / token handling)")
     if ast.unparse(_body(ex)[0 if "_cancelled" not in src else 1]).split("\n")[0] != "if self._state_bytes is None:":
         raise _broken("HttpStreamSession.exchange", "the missing-token guard is not where expected")
+    # the session is retired BEFORE the request is attempted: a failing POST (swallowed) must not leave a live token
+    stmts = _body(ca)
+    i_try = next((i for i, st in enumerate(stmts) if isinstance(st, ast.Try)), None)
+    if i_try is None or "self._client.post(" not in ast.unparse(stmts[i_try]) or [ast.unparse(x) for x in stmts[i_try].handlers[0].body] != ["return"]:
+        raise _broken("HttpStreamSession.cancel", "the cancel POST is not inside try/except: return")
+    if not (cab.index("token = self._state_bytes") < cab.index("self._finished = True") < i_try and cab.index("self._state_bytes = None") < i_try):
+        raise _broken("HttpStreamSession.cancel", "`_finished = True; _state_bytes = None` do not precede the cancel POST")
     if "_cancelled" not in src:
         return False
     chk = _body(_find(cls, ast.FunctionDef, "_check_not_cancelled", "HttpStreamSession._check_not_cancelled"))
